@@ -34,27 +34,33 @@ Definition add4 (a b : list nat) : list nat :=
 (* answer of one method call, and the reads it may make (None: no claim when the call fails) *)
 Definition sres := (outcome nat * option (list nat))%type.
 
-Definition spec_call (g : gst) (m : meth) : gst * sres :=
-  let s := m_src m in
+Definition snap_set (g : gst) (s : src) (v : nat) : gst :=
+  mkG (g_cur g) (g_depth g) (fun x => if src_eqb x s then Some v else g_snap g x) (g_dead g) (g_ok g).
+
+(* the source the method is computed from: the block's first read if there is one, else the kernel now *)
+Definition spec_primary (g : gst) (s : src) : gst * outcome nat * list nat :=
   let inb := Nat.ltb 0 (g_depth g) in
-  (* memory_full_info additionally needs statm (never kept by a block): fails if that is unreadable *)
-  let tail (g' : gst) (v : nat) (c : list nat) : gst * sres :=
+  match (if inb then g_snap g s else None) with
+  | Some v => (g, Val v, zero4)                       (* the block already holds the source: no read *)
+  | None =>
+      match g_cur g s with
+      | SAvail v => (if inb then snap_set g s v else g, Val v, one s)
+      | st => (g, out_of st, one s)
+      end
+  end.
+
+Definition spec_call (g : gst) (m : meth) : gst * sres :=
+  let '(g', o, c) := spec_primary g (m_src m) in
+  match o with
+  | Val v =>
+      (* memory_full_info additionally needs statm (never kept by a block): fails if that is unreadable *)
       if meth_eqb m Mmemory_full
       then match g_cur g Statm with
            | SAvail _ => (g', (Val v, Some (add4 c (one Statm))))
            | st => (g', (out_of st, None))
            end
-      else (g', (Val v, Some c)) in
-  match (if inb then g_snap g s else None) with
-  | Some v => tail g v zero4                          (* the block already holds the source *)
-  | None =>
-      match g_cur g s with
-      | SAvail v =>
-          let g' := if inb then mkG (g_cur g) (g_depth g) (fun x => if src_eqb x s then Some v else g_snap g x)
-                                    (g_dead g) (g_ok g) else g in
-          tail g' v (one s)
-      | st => (g, (out_of st, None))
-      end
+      else (g', (Val v, Some c))
+  | _ => (g', (o, None))
   end.
 
 Definition spec_step (g : gst) (o : op) : gst * option sres :=
@@ -73,8 +79,9 @@ Definition spec_step (g : gst) (o : op) : gst * option sres :=
       (mkG (fun x => if src_eqb x s then st else g_cur g x) (g_depth g) (g_snap g) (g_dead g) ok, None)
   | OEnv EGone => (mkG (fun _ => SGone) (g_depth g) (g_snap g) true (g_ok g), None)
   | OCall (CM m) =>
-      (* outside the claim: ppid() while stat is unreadable (its PID-reuse pre-check belongs to C01/C02) *)
-      let ok := g_ok g && negb (meth_eqb m Mppid && match g_cur g Stat with SDenied => true | _ => false end) in
+      (* outside the claim: ppid() while stat is not readable -- denied, or the process vanished
+         (its PID-reuse pre-check, Process._gone / _pid_reused, belongs to C01/C02) *)
+      let ok := g_ok g && negb (meth_eqb m Mppid && match g_cur g Stat with SAvail _ => false | _ => true end) in
       let (g', r) := spec_call g m in
       (mkG (g_cur g') (g_depth g') (g_snap g') (g_dead g') ok, Some r)
   | OCall CPid => (g, Some (Val pidval, Some zero4))
